@@ -444,6 +444,17 @@ def run(ctx: Ctx) -> None:
                             "nothing is stored for it and the pipeline's signature ignores its code (no error names the module)"], "untracked-nested",
                             what="a nested keep that the analysis did not register is evaluated untracked instead of refused")
     rep.floor("C14.R14", n14, 1)
+    from .common import refusal_live
+    rep.rule("C14.R15", "a callable of a non-accepted module handed to dds.keep / dds.eval is refused whether it is a function or a class: in both entry functions of the analysis "
+                        "the resolution of the call tree's paths (the step that raises 'module not accepted') is live code")
+    n15 = refusal_live(ctx, "C14.R15", "dds.keep('/model', Model) with the class Model defined in a module that was never accepted is introspected, evaluated and committed (its source is "
+                                       "hashed into the signature: edits of a non-accepted module move a signature) where a function of the same module is refused")
+    rep.floor("C14.R15", n15, 2)
+    from .c02 import exempt_rule
+    rep.rule("C14.R16", "as C02.R1(ext_dep): the objects of non-accepted modules that an accepted function uses are recorded by the canonical path the name is bound to - exactly the "
+                        "dependencies without a value signature reach the `ext_dep_` entries: re-pointing an import of the accepted module (`from ext.v1 import scale` -> `ext.v2`) "
+                        "changes the signature, the content of the external object does not")
+    exempt_rule(ctx, "C14.R16", sites_only=True)
     from .c01 import tracked_type_table
     rep.rule("C14.R13", "as C01.R4: every plain type the value hasher supports is tracked by value when it is the type of a variable of an accepted module, and each "
                         "structural option (accept_list / accept_dict) governs its own types only")
